@@ -8,7 +8,7 @@ GROUP = "Child"
 META = {
     "group": "Child",
     "technique": "Coq proof of the request/response re-encoding round trip over a Gallina model of child.go's codec (encoding/json string transport, URL parts to text, header collapse) + vm_compute correspondence with the real functions + the real ServiceHandler run in process and in child mode on generated services and requests",
-    "text": "C41_codec_roundtrip_request_partial / C41_codec_roundtrip_response_partial: a request reaches the service unchanged, and the service's status, headers and body reach the client unchanged, whenever they are representable (all strings well-formed UTF-8, URL parts are strings, one value per response header, no JSON Accept, status not 401 and not an error status with empty body) - proved for all such requests and outcomes over the model; C41_refuted / C41_refuted_witnesses give the fields where the trip is not the identity, each replayed on the real code and recorded as known findings; the model is compared with the real encoding/json trip, getHeadersFromResponse and data.String on every run, C41_caller_kind: every caller kind (anonymous, password, accepted token, presented-but-rejected token) is reported with the same req.Authentication; ServiceHandler is run in both modes on generated services and caller kinds, and a subset incl. a 3.5 s service is run through real child processes over the file and socket transports. partial: process start, the transports, timeouts and the child's own settings/symbol state are exercised but not modelled; error documents and req.URL.Path differ between the modes (known findings)",
+    "text": "C41_codec_roundtrip_request_partial / C41_codec_roundtrip_response_partial: a request reaches the service unchanged, and the service's status, headers and body reach the client unchanged, whenever they are representable (all strings well-formed UTF-8, URL parts are strings, one value per response header, status not 401 and not an error status with empty body) - proved for all such requests and outcomes over the model; C41_refuted / C41_refuted_witnesses give the fields where the trip is not the identity, each replayed on the real code and recorded as known findings; the model is compared with the real encoding/json trip, getHeadersFromResponse and data.String on every run, C41_writer_flags: the writer's JSON/text formatting flags are the router's reading of Accept in both modes; C41_caller_kind: every caller kind (anonymous, password, accepted token, presented-but-rejected token) is reported with the same req.Authentication; ServiceHandler is run in both modes on generated services and caller kinds, and a subset incl. a 3.5 s service is run through real child processes over the file and socket transports. partial: process start, the transports, timeouts and the child's own settings/symbol state are exercised but not modelled; error documents and req.URL.Path differ between the modes (known findings)",
     "note": "Trusted: Coq kernel; the model of json string transport (utf8.DecodeRune validity), data.String on int/bool/string, http.Header Set/Add/Del; the instrumented copy of child.go (runChildViaPipe body replaced by an in-memory encoding/json trip + direct runChildRequest call); overlay harness; Python comparison.",
 }
 
@@ -102,9 +102,42 @@ func handler(req http.Request, w *http.ResponseWriter) {
 '''
 
 
-def svc_source(status, headers, body, uses):
-    """A service that sets the given status, headers and body bytes; 'uses' adds request fields to the body."""
+def router_accepts(vals):
+    """Transliteration of the Accept scan in internal/router/serve.go (Session.AcceptsJSON, AcceptsText)."""
+    js = tx = False
+    for v in vals:
+        if "*/*" in v:
+            return True, True
+        if "text" in v.lower():
+            tx = True
+        if "json" in v.lower():
+            js = True
+    return js, tx
+
+
+ACCEPTS = [[], ["application/json"], ["text/plain"], ["*/*"], ["application/vnd.ego.demo+json"], ["application/problem+json"], ["Application/JSON"],
+           ["application/json, text/plain"], ["text/html", "application/json"], ["TEXT/PLAIN"], ["application/xml"], ["text/json"]]
+VALUE_WRITES = {"string": 'w.Write("hello")', "struct": 'w.Write({a: 1, b: "x y"})', "int": "w.Write(42)"}
+BIG_SRC = '''import "http"
+import "strings"
+
+func handler(req http.Request, w *http.ResponseWriter) {
+	w.WriteHeader(200)
+	w.Write([]byte(strings.Repeat("0123456789abcdef<&>\\"", 5000)))
+}
+'''
+
+
+def svc_source(status, headers, body, uses, value=None):
+    """A service that sets the given status, headers and body bytes; 'uses' adds request fields to the body;
+    value: write a non-byte value with w.Write (formatted as JSON or text by the writer's flags)."""
     lines = ['import "http"', "func handler(req http.Request, w *http.ResponseWriter) {"]
+    if value:
+        for k, vs in headers:
+            for v in vs:
+                lines.append("    w.Header().Add(%s, %s)" % (json.dumps(k), json.dumps(v)))
+        lines += ["    w.WriteHeader(%d)" % status, "    " + VALUE_WRITES[value], "}"]
+        return "\n".join(lines) + "\n"
     for k, vs in headers:
         for v in vs:
             lines.append("    w.Header().Add(%s, %s)" % (json.dumps(k), json.dumps(v)))
@@ -129,19 +162,23 @@ def gen_e2e(rng, n):
 
     def add(cls, status=200, headers=(), body=b"ok", uses=(), accept_json=False, req_body=b"", parts=(), req_headers=(("X-Q", ["a"]),),
             query="q=1", user="", auth=False, admin=False, token="", method="GET", file=None, known=True, perms=(), real=False, slow=False,
-            src=None):
+            src=None, accept=None, value=None):
         i = len(cases)
         path = "/services/c41/s%d" % i
         hs = [{"k": k, "v": list(v)} for k, v in req_headers]
-        if accept_json:
-            hs.append({"k": "Accept", "v": ["application/json"]})
-        c = {"src": "" if file else (src or svc_source(status, headers, body, uses)), "file": file or "", "method": method, "perms": list(perms),
+        if accept is None:
+            accept = ["application/json"] if accept_json else []
+        if accept:
+            hs.append({"k": "Accept", "v": list(accept)})
+        rj, rt = router_accepts(accept)
+        lit = any("application/json" in v for v in accept)
+        c = {"src": "" if file else (src or svc_source(status, headers, body, uses, value)), "file": file or "", "method": method, "perms": list(perms),
              "real": real, "slow": slow,
              "url": path + ("?" + query if query else ""), "path": path, "headers": hs, "body": req_body.hex(),
              "parts": [{"k": k, "t": t, "v": v} for k, t, v in parts], "user": user, "admin": admin, "auth": auth, "token": token,
-             "json": accept_json, "text": not accept_json}
+             "json": rj, "text": rt}
         cases.append((c, {"cls": cls, "status": status, "headers": [(k, list(v)) for k, v in headers], "body": bytes(body),
-                          "json": accept_json, "known": known and not uses and not src, "auth": auth, "bearer": token != "",
+                          "json": lit, "known": known and not uses and not src and not value, "auth": auth, "bearer": token != "",
                           "authn_only": tuple(uses) == ("authn",) and bytes(body) == b"a="}))
 
     # regression corpus: the _refuted witnesses and one representable case of each shape
@@ -152,9 +189,16 @@ def gen_e2e(rng, n):
         add(None, uses=who, user=user, auth=auth, token=token, admin=admin, perms=perms, body=b"c=", real=True)
         add(None, uses=("authn",), user=user, auth=auth, token=token, admin=admin, perms=perms, body=b"a=")
     add(None, src=SLOW_SRC, real=True, slow=True)
+    add(None, src=BIG_SRC, real=True)                     # encoded response far above 64 KiB, with characters JSON escapes
+    # every reading of Accept x services whose body is formatted by the writer's _json/_text flags
+    for k, acc in enumerate(ACCEPTS):
+        add(None, accept=acc, value="string", real=(k in (1, 4, 6)))
+        add(None, accept=acc, value="struct")
+        add(None, accept=acc, uses=("isjson", "istext"), body=b"f=")
+    add(None, accept=["application/json"], headers=[("Content-Type", ["text/csv"])], body=b"a,b")
     add("multi-valued-response-header", headers=[("X-Alpha", ["a", "b"])], real=True)
     add("non-utf8-response-body", body=b"\x89PNG\xff", real=True)
-    add("json-accept-content-type", body=b"{}", accept_json=True, real=True)
+    add(None, body=b"{}", accept_json=True, real=True)      # the Content-Type defect repaired in /repo (was json-accept-content-type)
     add("non-string-url-part", uses=("part",), parts=[("id", "i", "42")], body=b"p=")
     add("non-utf8-request-body", uses=("body",), req_body=b"h\xffi", body=b"b=", method="POST")
     add("url-path", uses=("path",), body=b"u=")
@@ -187,7 +231,7 @@ def gen_e2e(rng, n):
         elif r < 0.93:
             add("non-string-url-part", uses=("part",), parts=[("id", rng.choice("ib"), rng.choice(["7", "true"]))], body=b"p=")
         else:
-            add("json-accept-content-type", body=b"[1]", accept_json=True)
+            add(None, body=b"[1]", accept=rng.choice(ACCEPTS), value=rng.choice([None, None, "string", "struct", "int"]))
     return cases
 
 
@@ -211,7 +255,7 @@ def run(ck):
               "httptest.ResponseRecorder shows the status, headers and body a client would receive")
     ck.trusted("harness/C41/c41_test.go (in-package overlay), instrumented copy of child.go (runChildViaPipe replaced by an in-memory encoding/json trip), props/C41.py generators and comparison",
                "correspondence evaluated by vm_compute in a generated cases file")
-    coq_ok = ck.coq_stage(GROUP, theorems=["C41_codec_roundtrip_request_partial", "C41_codec_roundtrip_response_partial", "C41_caller_kind", "C41_refuted", "C41_refuted_witnesses"])
+    coq_ok = ck.coq_stage(GROUP, theorems=["C41_codec_roundtrip_request_partial", "C41_codec_roundtrip_response_partial", "C41_caller_kind", "C41_writer_flags", "C41_refuted", "C41_refuted_witnesses"])
 
     patched = patch_child(ck.work)
     if patched is None:
@@ -224,9 +268,9 @@ def run(ck):
         ck.violation("harness-build", "harness for internal/server/services does not build:\n" + binp[-1500:], replay={"log": binp[-3000:]}, found_input=False)
         return
     codec = gen_codec(ck.rng, 250 if quick else 3000)
-    e2e = gen_e2e(ck.rng, 70 if quick else 400)
+    e2e = gen_e2e(ck.rng, 110 if quick else 400)
     flagged = [i for i, (c, m) in enumerate(e2e) if c["real"]]
-    for i in flagged[(16 if quick else 80):]:           # bound the number of child processes started
+    for i in flagged[(22 if quick else 90):]:           # bound the number of child processes started
         e2e[i][0]["real"] = False
     if ck.replay_file:
         rp = json.load(open(ck.replay_file))["replay"]
@@ -405,6 +449,13 @@ def run(ck):
         L.append("].\nDefinition abad (i : nat) (c : bool * bool * str * str) : list nat := let '(a, b, wi, wc) := c in\n"
                  "  if str_eqb wi (%s ++ authn_name (authn_inproc a b) ++ [59]) && str_eqb wc (%s ++ authn_name (authn_child a b) ++ [59]) then [] else [i]." % (vs("a="), vs("a=")))
         exprs["A"] = "idx abad 0 acases"
+        # the generator's transliteration of the router's Accept scan agrees with the model's
+        L.append("Definition rcases : list (list str * bool * bool * bool) := [")
+        L.append(";\n".join("([%s], %s, %s, %s)" % ("; ".join(vs(v) for v in acc), *("true" if x else "false" for x in (router_accepts(acc) + (any("application/json" in v for v in acc),))))
+                            for acc in ACCEPTS))
+        L.append("].\nDefinition rbad (i : nat) (c : list str * bool * bool * bool) : list nat := let '(v, j, t, l) := c in\n"
+                 "  let r := router_accepts v false false in if Bool.eqb (fst r) j && Bool.eqb (snd r) t && Bool.eqb (literal_json v) l then [] else [i].")
+        exprs["R"] = "idx rbad 0 rcases"
         exprs["EI"] = "idx ibad 0 ecases"
         exprs["EC"] = "idx cbad 0 ecases"
         okc, resc = vf.coq_eval(GROUP, ck.work, "cases", "\n".join(L), exprs, timeout=900)
@@ -421,6 +472,8 @@ def run(ck):
                                  replay={"codec": codec[i]}, found_input=False)
                 for i in resc["P"][:3]:
                     ck.violation("corr-parts", "model/implementation disagree on data.String of a URL part (case %d of the part list)" % i, replay={"index": i}, found_input=False)
+                for j in resc["R"][:3]:
+                    ck.violation("corr-accept-rule", "the generator's and the model's reading of Accept %r disagree" % (ACCEPTS[j],), replay={"accept": ACCEPTS[j]}, found_input=False)
                 for j in resc["A"][:3]:
                     i, m = an[j]
                     ck.violation("corr-authn", "model/implementation disagree on req.Authentication for a caller with authenticated=%s token_presented=%s: in process %r, child %r" % (
